@@ -24,7 +24,8 @@ def base_family(rng):
         parts_ids.append(sorted(pool[k:k + s]))
         k += s
     # constructor arguments incl. pairs with equal builtin hash(): hash(-1) == hash(-2), hash(n) == hash(n + 2**61 - 1)
-    cargs = rng.choice([None, 1, 2, -1, 3, 'a'])
+    cargs = rng.choice([None, 1, 2, -1, 3, 'a', 'tup', 'pairs'])
+    cargs = {'tup': [0, 2], 'pairs': [['a', 1]]}.get(cargs, cargs)        # JSON lists are tuples
 
     def mk(parts_ids, fx=None, carg=cargs, wire=None, fx_part=0):
         parts = []
@@ -67,9 +68,13 @@ def base_family(rng):
         variants.append(('function-last',) + mk(parts_ids, fx='P.x#3', fx_part=n_parts - 1))
     if cargs is not None:
         # the same Transform class (shared edge objects), another instance argument
-        other = {1: 6, 2: 7, -1: -2, 3: 3 + 2 ** 61 - 1, 'a': 'b'}[cargs]
+        ck = json.dumps(cargs) if isinstance(cargs, list) else cargs
+        other = {1: 6, 2: 7, -1: -2, 3: 3 + 2 ** 61 - 1, 'a': 'b', '[0, 2]': [2, 0], '[["a", 1]]': [['a', 2]]}[ck]
         variants.append(('argument',) + mk(parts_ids, carg=other))
-        variants.append(('argument-type',) + mk(parts_ids, carg={1: '1', 2: 2.5, -1: -1.5, 3: None, 'a': ('a',)}[cargs]))
+        # the same content in a container of another type: a list is not a tuple, a dict is not a tuple of pairs
+        variants.append(('argument-type',) + mk(parts_ids, carg={
+            1: '1', 2: 2.5, -1: -1.5, 3: None, 'a': ('a',), '[0, 2]': {'app': ['$list', [0, 2], [], []]},
+            '[["a", 1]]': {'d': [['a'], [1]]}}[ck]))
     variants.append(('predicate-args',) + mk(parts_ids, wire=['y']))
     variants.append(('predicate-args2',) + mk(parts_ids, wire=['x', 'y']))
     variants.append(('same',) + mk(parts_ids))        # a rebuild: must agree with `base`
@@ -135,7 +140,10 @@ def run_family(seed):
     for r in recs:
         if 'hash' not in r:
             continue
-        groups.setdefault(r['hash'].value, []).append(r)
+        try:
+            groups.setdefault(r['hash'].value, []).append(r)
+        except TypeError:       # an unhashable constructor argument (a list, a dict) in the hash: equal to nothing else here
+            groups[('unhashable', len(groups))] = [r]
     pairs = 0
     for key, rs in groups.items():
         pairs += len(rs) - 1
